@@ -91,6 +91,8 @@ class Contract:
         defaults=None,
         prologue=(),
         at=None,
+        before_call=None,
+        epilogue=(),
     ):
         self.target = target  # "module:qualname" (code) or lemma name
         self.params = params  # ordered dict name -> type string
@@ -117,7 +119,11 @@ class Contract:
         self.inline_calls = set(inline_calls)
         self.vararg = vararg
         self.at = {" ".join(k.split()): [ast.parse(_dedent_src(x)).body for x in v] for k, v in (at or {}).items()}  # ghost calls before matching statements
-        self.prologue = list(prologue)  # ghost statements executed at function entry
+        # ghost statements run in the caller after the arguments of a call to the named callee are evaluated and before its contract is applied;
+        # starred arguments are visible as star0, star1, ... and the callee's bound parameters as arg_<name>
+        self.before_call = {k: [ast.parse(_dedent_src(x)).body for x in v] for k, v in (before_call or {}).items()}
+        self.prologue = list(prologue)
+        self.epilogue = [ast.parse(_dedent_src(x)).body for x in epilogue]  # ghost statements (cuts) run at every exit before the postconditions  # ghost statements executed at function entry
         self.defaults = dict(defaults or {})
 
     @property
